@@ -227,9 +227,10 @@ Section Main.
     match a with ESel ms => Some ms | EMatrix (ESel ms) => Some ms | _ => None end.
 
   Lemma absent_labels_sel_of a :
+    match a with EParen _ => False | _ => True end ->
     absent_labels a = match sel_of a with Some ms => fst (fold_left absent_step ms ([], [])) | None => [] end.
   Proof.
-    destruct a; reflexivity.
+    destruct a; intros H; try reflexivity. destruct H.
   Qed.
 
   Lemma sel_of_walk a ms : sel_of a = Some ms -> exists s0, In s0 (walk a) /\ s_selector s0 = Some ms.
@@ -294,7 +295,9 @@ Section Main.
       + intros s Hin. unfold ret_ok. rewrite (Hret s Hin). reflexivity.
       + intros x Hx. destruct (series_of C) eqn:Eser; apply Some_true_inj in Hl.
         * destruct (seteq_ls_l _ _ Hl x Hx) as [y [[<-|[]] He]].
-          rewrite absent_labels_sel_of in He. destruct (sel_of a) as [ms|] eqn:Eso.
+          assert (Hnp : match a with EParen _ => False | _ => True end).
+          { destruct a; try exact I. apply andb_true_iff in Hwc. destruct Hwc as [_ Hwc]. discriminate. }
+          rewrite (absent_labels_sel_of a Hnp) in He. destruct (sel_of a) as [ms|] eqn:Eso.
           -- destruct (sel_of_walk a ms Eso) as [s0 [Hs0 Hsel]].
              apply andb_true_iff in Hwc. destruct Hwc as [Hwc Hnn].
              assert (Hnd : nodup_names ms = true).
